@@ -11,6 +11,7 @@ from ..driver import Prop
 
 def g_pyval(v):
     """A python scalar as handed out by DataFrame.itertuples, as a term of PyEq.pyval."""
+    import datetime
     import math
     import zlib
 
@@ -31,10 +32,13 @@ def g_pyval(v):
         return f"(PFloat {T.fbits(float(v))})"       # the bit pattern as it is (NaN payloads included)
     if isinstance(v, str):
         return f"(PStr {g_str(v)})"
-    if isinstance(v, pd.Timestamp):
-        from ..cells import dt_ns
+    if isinstance(v, (pd.Timestamp, datetime.datetime, np.datetime64)):
+        t = pd.Timestamp(v)
+        if t.tzinfo is None:                  # a naive timestamp, whichever of the three types carries it
+            from ..cells import dt_ns
 
-        return f"(PDate ({dt_ns(v)})%Z)"
+            return f"(PDate ({dt_ns(t)})%Z)"
+        # a time-zone-aware timestamp never equals a naive one: another kind of object for the model
     return f"(POther {zlib.crc32((type(v).__name__ + ':' + repr(v)).encode())})"
 
 
@@ -48,7 +52,8 @@ def g_obj(table, cls=0):
     return (
         f"(OTable {cls} {origin} {g_bool(bool(table.metadata.transposed))} (mk {g_str(table.name)} "
         f"{g_list([g_str(d) for d in sorted(table.metadata.destinations)])} "
-        f"{g_list([g_str(str(c)) for c in table.column_names])} {g_list([g_str(str(u)) for u in table.units])} "
+        f"{g_list([g_str(c if isinstance(c, str) else '#' + str(c)) for c in table.column_names])} "
+        f"{g_list([g_str(str(u)) for u in table.units])} "
         f"{g_list([g_list([g_pyval(x) for x in r]) for r in rows])}))"
     )
 
@@ -64,7 +69,8 @@ def scalar_pool():
             2.2250738585072014e-308, 0.1, 1 / 3, np.float32(0.1), np.int8(-1), np.uint64(2**63), np.int64(2**53 + 1),
             True, False, np.bool_(True), "", "a", "1", "nan", "10", "True",
             None, pd.NaT, pd.NA, pd.Timestamp("2020-01-01"), pd.Timestamp("2020-01-01 00:00:00.000001"),
-            pd.Timestamp("1999-01-01"), pd.Timestamp("2020-01-01").as_unit("s"), datetime.date(2020, 1, 1), (1, 2)]
+            pd.Timestamp("1999-01-01"), pd.Timestamp("2020-01-01").as_unit("s"), datetime.date(2020, 1, 1), (1, 2),
+            datetime.datetime(2020, 1, 1), np.datetime64("2020-01-01T00:00:00.000001"), pd.Timestamp("2020-01-01", tz="UTC")]
 
 
 MUTATIONS = ["identity", "retype", "origin", "orientation", "name", "dest_add", "dest_remove", "dest_replace",
@@ -169,7 +175,7 @@ class C14(Prop):
             "pandas-nullable column types with pd.NA; Table and a subclass of Table), both argument orders, plus unrelated "
             "pairs and non-table operands: the model's method_equals on the cells the frames hand out (ints as integers, "
             "floats as bit patterns) against the four verdicts a.equals(b), b.equals(a), a.equals(a), b.equals(b); all "
-            "pairs of a 49-value scalar pool, as one-cell tables through Table.equals, against the model's equal_or_same; expected verdict "
+            "pairs of a 52-value scalar pool, as one-cell tables through Table.equals, against the model's equal_or_same; expected verdict "
             "recomputed independently from the specifications; non-trivial = tables with at least one column; "
             "distinct = distinct pairs")
     assumptions = [
